@@ -70,12 +70,27 @@ REACTIONS[('channel', 'responder')]['RequestChannelFrame[complete]'] = [
     # without an application subscriber there is nobody to tell
     ('opt', [REQ('initial_request_n')]), ('opt', [P(True, False)])]
 # reactions that must survive a half-close: (interaction, role) -> pre-state -> event -> reactions
+PEER_DONE = '<the peer has completed>'
 HALF_CLOSED = {
-    ('channel', 'requester'): {'_received_complete': {'RequestNFrame': [[REQ('request_n')]],
-                                                      'CancelFrame': [['cancel']]}},
-    ('channel', 'responder'): {'_received_complete': {'RequestNFrame': [[REQ('request_n')]],
-                                                      'CancelFrame': [['cancel']]}},
+    ('channel', 'requester'): {PEER_DONE: {'RequestNFrame': [[REQ('request_n')]],
+                                           'CancelFrame': [['cancel']]}},
+    ('channel', 'responder'): {PEER_DONE: {'RequestNFrame': [[REQ('request_n')]],
+                                           'CancelFrame': [['cancel']]}},
 }
+
+
+def _peer_done_flag(m, h, pre):
+    """The handler's 'the peer has completed its direction' flag, found by what the code does with it, not by its
+    name: the bool attribute that the constructor leaves False and that is True after every normal path of a received
+    PAYLOAD that carries COMPLETE and no element."""
+    for en in m.entries(h):
+        if en.kind == 'frame' and en.name.split('/')[-1] == 'PayloadFrame[complete,!next]':
+            posts = [m.post_state(p) for p in m.run(en, pre) if p.outcome == 'return']
+            if not posts:
+                return None
+            names = [k for k, v in pre.items() if v is False and all(q.get(k) is True for q in posts)]
+            return names[0] if len(names) == 1 else None
+    return None
 
 # which test outcomes each reaction belongs to: (interaction, role, event) -> [(effect that identifies the reaction
 # or None for "nothing", [(name mentioned by the tested expression, kind of test, required outcome)])]
@@ -231,8 +246,10 @@ def rule_reactions(ctx, rule_id, kinds=None):
             rep.add(rule_id, '%s / reaction' % en.name, en.func, ok,
                     detail or '%s on %d paths' % (' | '.join(sorted({_fmt(g) for g in got})), len(paths)))
         for flag, events in HALF_CLOSED.get(role, {}).items():
-            if flag not in pre:
-                raise AnalysisError('%s: %s has no state flag %s' % (rule_id, h.name, flag))
+            if flag == PEER_DONE:
+                flag = _peer_done_flag(m, h, pre)
+            if flag is None or flag not in pre:
+                raise AnalysisError('%s: %s has no state flag for %s' % (rule_id, h.name, PEER_DONE))
             pre2 = dict(pre)
             pre2[flag] = True
             for en in m.entries(h):
